@@ -28,6 +28,7 @@ import (
 	"io"
 	"net"
 	"os"
+	"runtime"
 	"strings"
 	"sync"
 	"time"
@@ -166,7 +167,9 @@ type tptCase struct {
 	ID        string    `json:"id"`
 	Transport string    `json:"transport"`
 	KeyL      string    `json:"listener_key_type"`
+	KeyM      string    `json:"other_listener_key_type"`
 	KeyD      string    `json:"dialer_key_type"`
+	KeyA      string    `json:"attacker_key_type"`
 	L, M, D   peer.ID   `json:"-"`
 	IDs       [4]string `json:"ids_L_M_D_attacker"`
 	Steps     []tptStep `json:"steps"`
@@ -219,21 +222,38 @@ func (s *state) transportLevel() {
 	if os.Getenv("VERIF_RACE") == "1" {
 		return
 	}
+	// nothing started here may outlive this family (other families run in synctest bubbles in this process)
+	baseline := runtime.NumGoroutine()
+	defer func() {
+		for dl := time.Now().Add(10 * time.Second); runtime.NumGoroutine() > baseline && time.Now().Before(dl); {
+			time.Sleep(20 * time.Millisecond)
+		}
+		s.r.Count("tpt_goroutines_left_after_family", max(0, runtime.NumGoroutine()-baseline))
+	}()
 	kinds := tptKinds()
 	type job struct {
-		k        tptKind
-		ktL, ktD string
+		k             tptKind
+		ktL, ktM, ktD string
 	}
 	var jobs []job
 	for ki, k := range kinds {
 		for li, ktL := range sectest.KeyTypes {
 			for di, ktD := range sectest.KeyTypes {
-				// quick: one key-type pair per transport, rotating with the seed (all four types occur on each
-				// side across the transports); thorough: the full crossing
-				if s.r.Quick() && (li != (ki+int(s.r.Seed))%4 || di != (ki*3+1+int(s.r.Seed>>2))%4) {
+				// quick: three or four key-type pairs per transport, rotating with the seed (all four types occur on
+				// both sides across the transports); thorough: the full crossing
+				if s.r.Quick() && (li*4+di+ki*3+int(s.r.Seed%5))%5 != 0 {
 					continue
 				}
-				jobs = append(jobs, job{k, ktL, ktD})
+				// the other listener M (the identity wrongly expected) has L's key type or the next one
+				next := sectest.KeyTypes[(li+1)%4]
+				if s.r.Quick() {
+					if (int(s.r.Seed)+ki)%2 == 0 {
+						next = ktL
+					}
+					jobs = append(jobs, job{k, ktL, next, ktD})
+					continue
+				}
+				jobs = append(jobs, job{k, ktL, ktL, ktD}, job{k, ktL, next, ktD})
 			}
 		}
 	}
@@ -241,7 +261,7 @@ func (s *state) transportLevel() {
 	var umu sync.Mutex
 	run.Parallel(len(jobs), 4, func(i int) {
 		j := jobs[i]
-		id := fmt.Sprintf("transport/%s/L=%s/D=%s", j.k.Name, j.ktL, j.ktD)
+		id := fmt.Sprintf("transport/%s/L=%s/M=%s/D=%s", j.k.Name, j.ktL, j.ktM, j.ktD)
 		if !s.r.Want(id) || s.r.TooMany() {
 			return
 		}
@@ -251,7 +271,7 @@ func (s *state) transportLevel() {
 		if skip {
 			return
 		}
-		if why := s.tptCase(id, j.k, j.ktL, j.ktD); why != "" {
+		if why := s.tptCase(id, j.k, j.ktL, j.ktM, j.ktD); why != "" {
 			umu.Lock()
 			unavailable[j.k.Name] = why
 			umu.Unlock()
@@ -266,28 +286,32 @@ func (s *state) transportLevel() {
 	}
 	for _, k := range kinds {
 		if _, un := unavailable[k.Name]; !un {
-			s.r.Require("tpt_positive_both_ends_ok/"+k.Name, s.r.Pick(1, 16))
-			s.r.Require("tpt_wrong_peer_refused/"+k.Name, s.r.Pick(3, 48))
+			s.r.Require("tpt_positive_both_ends_ok/"+k.Name, s.r.Pick(1, 32))
+			s.r.Require("tpt_wrong_peer_refused/"+k.Name, s.r.Pick(3, 96))
 		}
 	}
 	s.r.Require("tpt_positive_both_ends_ok/tcp-noise", 1) // needs nothing but loopback TCP: never "unavailable"
-	s.r.Require("tpt_refused_with_mismatch_error", s.r.Pick(10, 200))
-	s.r.Require("tpt_attacker_refused", s.r.Pick(2, 32))
+	s.r.Require("tpt_refused_with_mismatch_error", s.r.Pick(10, 400))
+	s.r.Require("tpt_attacker_refused", s.r.Pick(2, 64))
 }
 
 // tptCase runs the whole scenario for one (transport, key types). It returns a non-empty reason if the
 // transport could not be constructed here. Every host and socket it opened is closed when it returns.
-func (s *state) tptCase(id string, k tptKind, ktL, ktD string) (unavailable string) {
-	KL, KM, KD := s.pool[ktL][0], s.pool[ktL][1], s.pool[ktD][2]
-	ktA := sectest.KeyTypes[(len(ktL)+len(ktD)+len(k.Name))%4]
-	KA := s.pool[ktA][1]
-	if KA.ID == KM.ID {
-		KA = s.pool[ktA][0]
-		if KA.ID == KL.ID {
-			KA = s.pool[ktA][2]
+func (s *state) tptCase(id string, k tptKind, ktL, ktM, ktD string) (unavailable string) {
+	KL, KM, KD := s.pool[ktL][0], s.pool[ktM][1], s.pool[ktD][2]
+	// the attacker's own valid key: any pool key that nobody else in this case holds
+	var KA *sectest.Key
+	var ktA string
+	for i := 0; KA == nil; i++ {
+		ktA = sectest.KeyTypes[(len(ktL)+len(ktD)+len(k.Name)+i)%4]
+		for _, cand := range s.pool[ktA] {
+			if cand.ID != KL.ID && cand.ID != KM.ID && cand.ID != KD.ID {
+				KA = cand
+				break
+			}
 		}
 	}
-	c := &tptCase{ID: id, Transport: k.Name, KeyL: ktL, KeyD: ktD, L: KL.ID, M: KM.ID, D: KD.ID,
+	c := &tptCase{ID: id, Transport: k.Name, KeyL: ktL, KeyM: ktM, KeyD: ktD, KeyA: ktA, L: KL.ID, M: KM.ID, D: KD.ID,
 		IDs: [4]string{KL.ID.String(), KM.ID.String(), KD.ID.String(), KA.ID.String()}}
 	var hosts []host.Host
 	defer func() {
@@ -296,7 +320,6 @@ func (s *state) tptCase(id string, k tptKind, ktL, ktD string) (unavailable stri
 			h.Close()
 			if d := time.Since(t0); d > 2*time.Second {
 				s.r.Count("tpt_slow_host_close_over_2s/"+k.Name, 1)
-				s.t.Logf("DEV slow close %s %s %v", id, h.ID(), d)
 			}
 		}
 	}()
@@ -320,9 +343,6 @@ func (s *state) tptCase(id string, k tptKind, ktL, ktD string) (unavailable stri
 		return "host has no listen address"
 	}
 	s.r.Eval(1)
-	if os.Getenv("VERIF_DEV") != "" {
-		s.t.Logf("DEV %s hosts up at %v", id, time.Now().Format("05.000"))
-	}
 	addrL, addrM := L.Addrs()[0], M.Addrs()[0]
 	wL, wM := &watcher{}, &watcher{}
 	wL.attach(L)
@@ -407,6 +427,9 @@ func (s *state) tptCase(id string, k tptKind, ktL, ktD string) (unavailable stri
 				s.r.Count("tpt_listener_never_showed_transport_level_conn/"+k.Name, 1)
 			}
 			cc.Close()
+		}
+		if err != nil && strings.HasPrefix(err.Error(), "panic:") {
+			s.r.Count("tpt_dial_panicked/"+k.Name, 1)
 		}
 		return record(st, err)
 	}
@@ -498,46 +521,53 @@ func (s *state) tptCase(id string, k tptKind, ktL, ktD string) (unavailable stri
 	}
 
 	// ---- (1) the right peer: must succeed, both ends report the other's real identity ----------------
+	// (a failed positive control is repeated once: under heavy CPU contention a WebRTC/QUIC handshake may
+	// hit one of the libraries' own real-time limits; the negative steps below do not depend on it)
+	var st *tptStep
 	positives := 0
-	st := tdial("1a-transport-dial-right-peer", addrL, KL.ID, KL.ID)
-	judge(st, false)
-	if st.OK && st.RemotePeer == KL.ID && st.KeyHashes {
-		positives++
-	}
-	settle()
-	st = hdial("1b-connect-right-peer", "Host.Connect", KL.ID, KL.ID, []ma.Multiaddr{addrL})
-	judge(st, false)
-	if st.OK && st.RemotePeer == KL.ID && st.KeyHashes {
-		// usable, and L's view of this very connection: ask L over a stream whom it is talking to
-		ctx, cancel := context.WithTimeout(context.Background(), tptDialTimeout)
-		str, err := D.NewStream(ctx, KL.ID, tptWhoami)
-		if err == nil {
-			str.SetDeadline(time.Now().Add(tptDialTimeout))
-			b, _ := io.ReadAll(io.LimitReader(str, 300))
-			str.Close()
-			want := fmt.Sprintf("%s %s\n", KD.ID, KL.ID)
-			switch {
-			case string(b) == want:
-				positives++
-			case len(b) > 0 && strings.HasSuffix(string(b), "\n"):
-				viol("identity:listener-reports-wrong-remote-peer", fmt.Sprintf("1b: the listener says %q about the connection, ground truth is %q", b, want))
-			default:
-				s.r.Inconclusive(id, fmt.Sprintf("whoami stream incomplete: %q", b))
-			}
-		} else {
-			s.r.Inconclusive(id, "whoami stream: "+err.Error())
+	for attempt := 0; attempt < 2 && positives < 2 && s.r.Violations() == 0; attempt++ {
+		positives = 0
+		st = tdial("1a-transport-dial-right-peer", addrL, KL.ID, KL.ID)
+		judge(st, false)
+		if st.OK && st.RemotePeer == KL.ID && st.KeyHashes {
+			positives++
 		}
-		cancel()
+		settle()
+		st = hdial("1b-connect-right-peer", "Host.Connect", KL.ID, KL.ID, []ma.Multiaddr{addrL})
+		judge(st, false)
+		if st.OK && st.RemotePeer == KL.ID && st.KeyHashes {
+			// usable, and L's view of this very connection: ask L over a stream whom it is talking to
+			ctx, cancel := context.WithTimeout(context.Background(), tptDialTimeout)
+			str, err := D.NewStream(ctx, KL.ID, tptWhoami)
+			if err == nil {
+				str.SetDeadline(time.Now().Add(tptDialTimeout))
+				b, _ := io.ReadAll(io.LimitReader(str, 300))
+				str.Close()
+				want := fmt.Sprintf("%s %s\n", KD.ID, KL.ID)
+				switch {
+				case string(b) == want:
+					positives++
+				case len(b) > 0 && strings.HasSuffix(string(b), "\n"):
+					// the listener's end of "both sides must report exactly the other's real identity"
+					viol("identity:listener-reports-wrong-remote-peer", fmt.Sprintf("1b: the listener says %q about the connection, ground truth is %q", b, want))
+				default:
+					c.Steps = append(c.Steps, tptStep{Step: "1b-whoami", Call: "Host.NewStream", Err: fmt.Sprintf("incomplete answer %q", b)})
+				}
+			} else {
+				c.Steps = append(c.Steps, tptStep{Step: "1b-whoami", Call: "Host.NewStream", Err: err.Error()})
+			}
+			cancel()
+		}
+		D.Network().ClosePeer(KL.ID)
+		D.Peerstore().ClearAddrs(KL.ID)
+		settle()
 	}
-	D.Network().ClosePeer(KL.ID)
-	D.Peerstore().ClearAddrs(KL.ID)
-	settle()
 	if positives == 2 {
 		s.r.Count("tpt_positive_both_ends_ok/"+k.Name, 1)
 		s.r.Count("tpt_positive_both_ends_ok/key="+ktL, 1)
 		s.r.Nontrivial(id)
 	} else if s.r.Violations() == 0 {
-		s.r.Inconclusive(id, fmt.Sprintf("positive control did not complete: %+v", c.Steps))
+		s.r.Inconclusive(id, fmt.Sprintf("positive control did not complete (twice): %.600s", fmt.Sprintf("%+v", c.Steps)))
 	}
 
 	// ---- (2) L's address, expecting M ------------------------------------------------------------------
@@ -625,7 +655,7 @@ func (s *state) tptCase(id string, k tptKind, ktL, ktD string) (unavailable stri
 			viol("identity:listener-reports-wrong-remote-peer", fmt.Sprintf("a listener saw an inbound connection from %s (key hashes to it: %v) during %q; only %s ever dialed", sn.RemotePeer, sn.KeyHashes, sn.Phase, KD.ID))
 			break
 		}
-		if sn.Phase[0] != '1' && sn.Phase[:2] != "3b" {
+		if !strings.HasPrefix(sn.Phase, "1") && !strings.HasPrefix(sn.Phase, "3b") {
 			s.r.Count("tpt_listener_saw_conn_during_refused_dial/"+k.Name, 1)
 		}
 	}
@@ -643,14 +673,6 @@ func (s *state) tptCase(id string, k tptKind, ktL, ktD string) (unavailable stri
 		// not part of the identity statement and only a real-time observation: noted, not raised
 		s.r.Count("tpt_listener_conn_survived_watchdog/"+k.Name, left)
 		s.r.Inconclusive(id, fmt.Sprintf("L still lists %d connection(s) %v after every dial was closed or refused", left, tptQuiesce))
-	}
-	if os.Getenv("VERIF_DEV") != "" {
-		s.t.Logf("DEV %s END at %v attacker=%v", id, time.Now().Format("05.000"), c.Attacker)
-		for _, st := range c.Steps {
-			if st.Millis > 500 {
-				s.t.Logf("DEV slow step %s: %s %s %dms err=%.200s", id, st.Step, st.Call, st.Millis, st.Err)
-			}
-		}
 	}
 	if s.r.SampleN() < 4 && (k.Name == "quic" || k.Name == "webrtc-direct" || k.Name == "tcp-tls") {
 		s.r.Sample(map[string]any{"kind": "transport-level", "case": c})
@@ -731,11 +753,7 @@ func (s *state) tptAttacker(c *tptCase, k tptKind, KA, KL, KD *sectest.Key,
 	D.Network().ClosePeer(KL.ID)
 	D.Peerstore().ClearAddrs(KL.ID)
 	ln.Close()
-	tw := time.Now()
 	awg.Wait()
-	if os.Getenv("VERIF_DEV") != "" {
-		s.t.Logf("DEV %s attacker wait %v", c.ID, time.Since(tw))
-	}
 	mu.Lock()
 	for _, n := range c.Attacker {
 		if strings.Contains(n, "NOT the dialer's identity") {
